@@ -14,6 +14,9 @@ def main():
     elif pid == 'C04':
         import stream
         stream.main(pid, 'quick' if tier == 'replay' else tier, rp)
+    elif pid == 'C10':
+        import slot
+        slot.main(pid, 'quick' if tier == 'replay' else tier, rp)
     elif pid == 'C12':
         import after
         after.main(pid, 'quick' if tier == 'replay' else tier, rp)
